@@ -27,6 +27,9 @@ type WriteOp struct {
 	// PingAfterChunk (writer only): issue one Ping after this many chunks have been written (0 = never) — a
 	// control frame between the frames of a message (frames already written may still sit in the write buffer)
 	PingAfterChunk int `json:"ping_after_chunk,omitempty"`
+	// ThenMisuse (writer only): after the writer was closed, Close it again and Write to it: both must fail and
+	// nothing more may reach the wire
+	ThenMisuse bool `json:"then_misuse,omitempty"`
 }
 
 type WriteCase struct {
@@ -85,6 +88,7 @@ type writeObs struct {
 	Wire    []byte
 	Errs    []string // per op: "" or error text
 	Mutated string   // description if a caller buffer was modified
+	Misuse  string   // description if a closed writer accepted a call
 	Panic   string
 	Thresh  int
 }
@@ -171,6 +175,14 @@ func runWriteCase(c *WriteCase) *writeObs {
 					}
 					if err == nil {
 						err = w.Close()
+					}
+					if err == nil && op.ThenMisuse {
+						if e2 := w.Close(); e2 == nil {
+							o.Misuse = "a second Close on a closed writer returned nil"
+						}
+						if _, e3 := w.Write([]byte("written after Close")); e3 == nil {
+							o.Misuse = "Write on a closed writer returned nil"
+						}
 					}
 				}
 			case "ping":
